@@ -198,6 +198,15 @@ DecodedContent(c) == IF IsBytes(c) THEN ContentOf(c, DecodedText(c)) ELSE c.c
 Undecodable(c) == IsBytes(c) /\ Fails(DecodedText(c))
 
 Precedence == (enc # None) => Canon[enc] = Canon[Declared(cell)]
+\* A coding declaration counts on the FIRST line of the input only (Lexer.decode_raw_stream matches the magic-comment
+\* regexp at offset 0; Mako documents the first line).  A cell may carry, below line 1, a line that merely looks like one
+\* (cell.dp: on line 2, on line 3, mid-file, inside <%text>, inside a ## comment, inside <%doc>, inside a Python string
+\* literal) naming a codec cell.dc -- a foreign one or even the true one.  Such a line is template content (or a comment)
+\* like any other: Declared(c) does not look at it, and neither may the machine.
+HasDecoy(c) == c.dp # None
+DecoysIgnored == (HasDecoy(cell) /\ enc # None) =>
+                    Canon[enc] = (IF IsBytes(cell) /\ cell.bom THEN "utf_8"
+                                  ELSE IF cell.cm # None THEN Canon[cell.cm] ELSE IF cell.ie # None THEN Canon[cell.ie] ELSE "utf_8")
 \* CompileException exactly for contradicted BOMs and undecodable input (alias corner: either), nothing else raises
 ErrorsExact == /\ (pc = "raised") => (res = "CompileException" /\ (Contradicted(cell) \/ AliasCorner(cell) \/ Undecodable(cell)))
                /\ (pc = "done") => (res = "ok" /\ ~Contradicted(cell) /\ ~Undecodable(cell))
